@@ -662,6 +662,53 @@ def part_configs(rec, C, thorough, only_chains=None, only_layouts=None):
     rec.count("cfg_failed_parses", failed)
 
 
+def part_config_vs_default(rec, C):
+    """C2: the rule 'a relative path written inside a config file is resolved against that file's directory' has no exception for
+    a spelling that is also the argument's declared default: data.txt exists in the config's directory and in the working directory."""
+    cfgdir, cwd = os.path.join(C, "a"), os.path.join(C, "w")
+    want = os.path.realpath(os.path.join(cfgdir, "data.txt"))
+    with open(os.path.join(cfgdir, "dflt.yaml"), "w") as fh:
+        fh.write("file: data.txt\nfiles: [data.txt]\n")
+    os.makedirs(os.path.join(C, "nodata"), exist_ok=True)
+    with open(os.path.join(C, "nodata", "m.yaml"), "w") as fh:
+        fh.write("file: data.txt\n")
+    os.chdir(cwd)
+    try:
+        for dname, mk_default in (("none", None), ("other-spelling", lambda: "dd/inner.txt"), ("same-spelling-str", lambda: "data.txt"),
+                                  ("same-spelling-path-object", lambda: Path_fr("data.txt"))):
+            for channel in ("parse_path", "argv_cfg"):
+                def run():
+                    p = ArgumentParser(exit_on_error=False)
+                    p.add_argument("--cfg", action=ActionConfigFile)
+                    kw = {} if mk_default is None else {"default": mk_default()}
+                    p.add_argument("--file", type=Path_fr, **kw)
+                    p.add_argument("--files", type=List[Path_fr])
+                    return p.parse_path("../a/dflt.yaml") if channel == "parse_path" else p.parse_args(["--cfg=../a/dflt.yaml"])
+                res = outcome(run)
+                case = {"cwd": "<C>/w (holds its own data.txt)", "config": "<C>/a/dflt.yaml = {file: data.txt, files: [data.txt]}", "declared default of --file": dname, "channel": channel}
+                key = f"c19:cfg-vs-default:{dname}:{channel}"
+                if not rec.check(res[0] == "ok", key + ":rejected", f"valid configuration rejected: {res[1:]}".replace(C, "<C>"), case):
+                    continue
+                for k, v in (("file", res[1].file), ("files[0]", res[1].files[0])):
+                    got = os.path.realpath(v.absolute) if isinstance(v, Path) else os.path.realpath(str(v))
+                    what = "ok" if (isinstance(v, Path) and got == want) else "not-a-path-object;names-the-file-of-the-working-directory" if not isinstance(v, Path) else "resolved-against-the-working-directory" if got == os.path.realpath(os.path.join(cwd, "data.txt")) else "elsewhere"
+                    rec.check(what == "ok", f"{key}:{k}:{what}", f"{k} written as data.txt in <C>/a/dflt.yaml came out as {v!r} ({type(v).__name__}) naming {got.replace(C, '<C>')}, expected a path object for <C>/a/data.txt", case)
+                rec.nontrivial(key)
+                # the same spelling in a config whose directory has no data.txt: the file system does not satisfy 'fr' there
+                def run_missing():
+                    p = ArgumentParser(exit_on_error=False)
+                    p.add_argument("--cfg", action=ActionConfigFile)
+                    p.add_argument("--file", type=Path_fr, **({} if mk_default is None else {"default": mk_default()}))
+                    return p.parse_path("../nodata/m.yaml") if channel == "parse_path" else p.parse_args(["--cfg=../nodata/m.yaml"])
+                res = outcome(run_missing)
+                v = res[1].file if res[0] == "ok" else None
+                rec.check(res[0] != "ok", f"{key}:missing-beside-the-config:accepted-as-{type(v).__name__}",
+                          f"file: data.txt inside <C>/nodata/m.yaml (no such file beside it) was accepted as {v!r}; only the working directory has a data.txt",
+                          dict(case, config="<C>/nodata/m.yaml = {file: data.txt}; <C>/nodata holds no data.txt"))
+    finally:
+        os.chdir(C)
+
+
 # ----------------------------------------------------------------------------------------------------------------------
 def warmup(tmp):
     """Run a miniature of every part in the (privileged) parent so that every lazy import of jsonargparse and its
@@ -714,6 +761,7 @@ def child(tmp, tier, seed):
         reasons = part_path(rec, R, kinds, thorough, random.Random(seed))
         part_types(rec, R, kinds)
         part_configs(rec, C, thorough)
+        part_config_vs_default(rec, C)
     finally:
         os.chdir(tmp)
         restore_fixture(R)
@@ -791,7 +839,7 @@ def main():
                     pass
     bound = (f"all valid flag multisets of <= 4 flags ({'with' if h.thorough else 'without'} u/s) x 77 path kinds x 4{'+2' if h.thorough else ''} variants x 2 working directories; "
              f"_check_mode on every string of <= {4 if h.thorough else 3} characters over 15; config chains of <= {4 if h.thorough else 3} files x {6 if h.thorough else 5} directory layouts x 3 cwds x 5 channels, "
-             f"failure injected at each level; run with uid={uid}; R/W/X flags {'exercised' if perms else 'NOT exercised (root)'}")
+             f"failure injected at each level; a config path spelled like the declared default (4 kinds of default x 2 channels); run with uid={uid}; R/W/X flags {'exercised' if perms else 'NOT exercised (root)'}")
     sys.exit(h.finish(exhaustive=True, bound=bound))
 
 
